@@ -1,0 +1,10 @@
+//go:build verif
+// +build verif
+
+package service
+
+// Verification hook (C17): run one expiry tick of the pending container synchronously, i.e. exactly
+// what the one-minute ticker of simpleContainer.loop starts in the background (growRing).
+func (pool *TxPool) VerifGrowRing() {
+	pool.received.growRing()
+}
